@@ -9,7 +9,7 @@ use apollo_compiler::Schema;
 use std::collections::{BTreeSet, HashMap};
 
 pub fn families() -> Vec<(&'static str, crate::Family)> {
-    vec![("c15_dump", c15_dump), ("c15_check", c15_check)]
+    vec![("c15_dump", c15_dump), ("c15_check", c15_check), ("c15_hist", c15_hist)]
 }
 
 const BUILTIN_SCALARS: [&str; 5] = ["Int", "Float", "String", "Boolean", "ID"];
@@ -337,4 +337,57 @@ fn c15_check(line: &str) -> String {
             )
         }
     }
+}
+
+/// input: `<hex source> <type name | -> <B1,B2,.. | ->`: validate; into_inner; add the fields `zz0: B1`, `zz1: B2`, ..
+/// to the object type of that name; validate again.  Every `Valid<Schema>` reached on the way (after the first
+/// validation, after the second, after a third one) must be consistent.
+/// output: `v=<verdicts> c=<consistent per valid stage>` and the oracle
+fn c15_hist(line: &str) -> String {
+    use apollo_compiler::Name;
+    let f: Vec<&str> = line.split(' ').collect();
+    let src = unhex(f[0]);
+    let tname = f[1];
+    let adds: Vec<&str> = split_nonempty(f[2], ',');
+    let mut why: Vec<String> = Vec::new();
+    let mut verdicts = String::new();
+    let mut stage = |s: Schema, n: usize, why: &mut Vec<String>, verdicts: &mut String| -> Schema {
+        match s.validate() {
+            Ok(v) => {
+                let bad = consistent_impl(&v);
+                if !bad.is_empty() {
+                    why.push(format!("stage{n}:{}", bad.join(",")));
+                }
+                verdicts.push('1');
+                v.into_inner()
+            }
+            Err(e) => {
+                verdicts.push('0');
+                e.partial
+            }
+        }
+    };
+    let s0 = match Schema::builder().parse(src, "schema.graphql").build() {
+        Ok(s) => s,
+        Err(e) => e.partial,
+    };
+    let mut s = stage(s0, 1, &mut why, &mut verdicts);
+    if let Some(ExtendedType::Object(obj)) = s.types.get_mut(tname) {
+        let obj = obj.make_mut();
+        for (i, b) in adds.iter().enumerate() {
+            let fname = Name::new(&format!("zz{i}")).expect("name");
+            let fd = FieldDefinition {
+                description: None,
+                name: fname.clone(),
+                arguments: vec![],
+                ty: Type::Named(Name::new(b).expect("name")),
+                directives: Default::default(),
+            };
+            obj.fields.insert(fname, Component::new(fd));
+        }
+    }
+    let s = stage(s, 2, &mut why, &mut verdicts);
+    let _ = stage(s, 3, &mut why, &mut verdicts);
+    let oracle = if why.is_empty() { "ok".to_string() } else { format!("bad:{}", why.join("+")) };
+    format!("v={verdicts} oracle={oracle}")
 }
